@@ -261,8 +261,12 @@ class C12(Spec):
         "only up to the 1e-11 acceptance slack and only if the regions cover the sphere: both are searched, not proved",
     )
     assumptions = (
-        "layouts: the ten nominal layouts, a fixed catalogue of admissible symmetric real layouts and the fixed catalogue of "
-        "boundary-valued real layouts (harness/c05.py real_catalogue, boundary_catalogue; same admissibility rules as C05)",
+        "layouts: the ten nominal layouts, a fixed catalogue of admissible symmetric real layouts, the fixed catalogue of "
+        "boundary-valued real layouts and the fixed-seed catalogue of corner layouts (every loudspeaker at an inclusive end of its "
+        "ranges; symmetric family = inside the quantifier, asymmetric family tagged asymmetric-catalogue:<id>) (harness/c05.py "
+        "real_catalogue, boundary_catalogue, corner_catalogue; same admissibility rules as C05)",
+        "structural check on every configured panner: the vertex order of every QuadRegion / VirtualNgon (real ngon_vertex_order) "
+        "must be a simple polygon and equal the harness's own order by angle around the centre",
         "a jump is a change of some gain larger than %g + %g*L*angle between two directions %g rad apart, L = largest "
         "|dg|/angle seen on the same path at angles >= %g (a steep but continuous change does not alarm)" % (JUMP_ABS, L_SAFETY, FINAL_ANGLE, L_MIN_ANGLE),
     )
@@ -299,8 +303,9 @@ class C12(Spec):
             for lid, name, real in fam:
                 on = full is None or lid in full
                 # not sampled: symmetric layouts still get the paths through every loudspeaker, asymmetric ones the structural check
-                tasks.append((lid, name, real, "%s/%d/%s" % (ctx.tier, ctx.seed, lid), max(40, n_local // 3) if on else (-1 if tag is None else 0),
-                              max(3, n_circles // 3) if on else 0, (tag + lid) if tag else None))
+                div = 3 if ctx.quick else 8
+                tasks.append((lid, name, real, "%s/%d/%s" % (ctx.tier, ctx.seed, lid), max(40, n_local // div) if on else (-1 if tag is None else 0),
+                              max(3, n_circles // div) if on else 0, (tag + lid) if tag else None))
         mx_d, mx_L = 0.0, 0.0
         for lid, calls, counts, hits, samples in c05.run_pool(tasks, _task):
             mx_d = max(mx_d, counts.pop("max-final-delta", 0.0))
